@@ -7,7 +7,7 @@ RULE = ("histories over the public mutation/arithmetic API of the three composit
         "past failures, ALL histories up to a fixed depth over a reduced alphabet in lock-step on the four "
         "forms, random histories (<= 40 ops, cache-populating calls injected) in lock-step and with mixed "
         "representations; class of a case = (form, set of op kinds used)")
-MODULES = ["Props.C02", "Lemmas.Ents", "Props.C15Float", "Inst.C02Mass", "Props.C02Float"]
+MODULES = ["Props.C02", "Lemmas.Ents", "Props.C15Float", "Inst.C02Mass", "Props.C02Float", "Props.C02FloatPerm"]
 
 
 def run(r: Run):
